@@ -187,12 +187,20 @@ def conversion_scope(ctx, py: PyRepo):
     # convert_substitutions: cached scope of the same ordinal, lookup (not resolve) for the keys
     fn = sem.methods.get('convert_substitutions')
     ctx.require(fn is not None, 'anchor vanished: LanguageSemantics.convert_substitutions')
-    src = ast.unparse(fn)
+    from .c16 import inline_locals
     ordinal = fn.args.args[2].arg
-    ok_scope = f'self._cached_axiom_scopes[{ordinal}]' in src
-    uses_lookup = 'lookup_metavar(' in src and 'resolve_metavar(' not in src
-    same_scope = any(isinstance(n, ast.Call) and ast.unparse(n.func).endswith('_convert_pattern') and n.args and ast.unparse(n.args[0]) == 'scope'
-                     for n in ast.walk(fn))
+    SCOPE = f'self._cached_axiom_scopes[{ordinal}]'
+
+    def resolved(e):
+        return ast.unparse(inline_locals(fn.body, e, keep={a.arg for a in fn.args.args}))
+    calls = [n for n in ast.walk(fn) if isinstance(n, ast.Call) and isinstance(n.func, ast.Attribute)]
+    convs = [c for c in calls if c.func.attr.endswith('_convert_pattern')]
+    lookups = [c for c in calls if c.func.attr == 'lookup_metavar']
+    allocating = [c for c in calls if c.func.attr.startswith('resolve_')]
+    # the scope used is the cached scope of the same axiom ordinal, for the keys and for the values
+    ok_scope = bool(lookups) and all(resolved(c.func.value) == SCOPE for c in lookups)
+    uses_lookup = bool(lookups) and not allocating
+    same_scope = bool(convs) and all(c.args and resolved(c.args[0]) == SCOPE for c in convs)
     ctx.ob('scope-per-axiom', 'convert_substitutions', ok_scope and uses_lookup and same_scope,
            f'convert_substitutions must take the cached scope of the same axiom ordinal ({ok_scope}), look the substituted variables up '
            f'without allocating ({uses_lookup}) and convert the values in that scope ({same_scope})', py.where(SEM, fn))
